@@ -21,6 +21,11 @@ type RawFont struct {
 	EncodingPS  string   // text of the encoding definition ("" = StandardEncoding)
 	Tail        string   // text after definefont, before closefile
 	DefineTwice bool
+	// Aliases: the font dictionary is registered with definefont under these
+	// names as well (the same object reachable under several keys).
+	Aliases []string
+	// NoFontName leaves /FontName out of the font dictionary.
+	NoFontName bool
 }
 
 // RawGlyph is a glyph with a plain (unencrypted) charstring.
@@ -36,7 +41,10 @@ func WriteRaw(f *RawFont) []byte {
 	for _, l := range f.InfoLines {
 		clear.WriteString(l + "\n")
 	}
-	clear.WriteString("end def\n/FontName /Hostile def\n")
+	clear.WriteString("end def\n")
+	if !f.NoFontName {
+		clear.WriteString("/FontName /Hostile def\n")
+	}
 	if f.EncodingPS != "" {
 		clear.WriteString(f.EncodingPS + "\n")
 	} else {
@@ -79,7 +87,15 @@ func WriteRaw(f *RawFont) []byte {
 		priv.Write(enc)
 		priv.WriteString(" ND\n")
 	}
-	priv.WriteString("end\nend\nreadonly put\nnoaccess put\ndup /FontName get exch definefont pop\n")
+	priv.WriteString("end\nend\nreadonly put\nnoaccess put\n")
+	for _, a := range f.Aliases {
+		fmt.Fprintf(&priv, "dup /%s exch definefont pop\n", a)
+	}
+	if f.NoFontName {
+		priv.WriteString("/Hostile exch definefont pop\n")
+	} else {
+		priv.WriteString("dup /FontName get exch definefont pop\n")
+	}
 	if f.DefineTwice {
 		priv.WriteString("/Second 5 dict dup /FontType 1 put definefont pop\n")
 	}
